@@ -139,6 +139,12 @@ def items(tier):
                         for tolerant in ((False,) if quick else (False, True)):
                             for rerun in (False, True):
                                 out.append((L, P, nb, na, (e,), j, tolerant, rerun, False))
+    # long rings (file ids of mixed decimal length in the inherited chain), entered directly and through a prefix
+    for L in ((7, 9, 12) if quick else (7, 8, 9, 10, 12, 15)):
+        for P in ((0, 2) if quick else (0, 1, 2, 3)):
+            for e in ((0,) if quick else (0, 3, L - 1)):
+                for j in (1, 3):
+                    out.append((L, P, 0, 0, (e,), j, False, False, False))
     # the cycle is closed by an edit after a successful acyclic build; the closing node may be checksummed / always
     for L in ((2, 3) if quick else (2, 3, 4, 5)):
         for P in ((0, 1) if quick else (0, 1, 2)):
@@ -161,7 +167,7 @@ def items(tier):
     return out
 
 
-RULE = ('cycles of length 1..6 reached through an acyclic prefix of length 0..3, with 0-2 acyclic siblings before/after the cyclic dependency '
+RULE = ('cycles of length 1..6 (and rings of 7-15) reached through an acyclic prefix of length 0..3, with 0-2 acyclic siblings before/after the cyclic dependency '
         'in the same redo-ifchange list, every node of the cycle as entry point, -j1 (redo-ifchange) and -j4 (redo -j4), strict and '
         'failure-ignoring scripts, first build and re-run (recorded-graph check); cycles closed by an edit after a successful build (closing node plain, '
         'checksummed, always), also after a history that gives cycle members smaller file ids than their ancestors; plus entry at two nodes at once. Oracle: not stuck '
